@@ -1,7 +1,7 @@
 SPECIFICATION Spec
 CONSTANTS
   Addr = {0, 1, 2}
-  Byte = {0, 1, 2}
+  Byte = {0, 1}
   Ids = {i1, i2, i3}
   MaxLen = 2
   MaxOut = 2
